@@ -360,9 +360,10 @@ def P(s, name):
     return s.param_values[name]
 
 
-def save_setup_case(storekind, compkind):
+def save_setup_case(storekind, compkind, dang=None):
     """One case of the input space per Contract object (they are verified in parallel): which store the arguments resolve
-    to (zip / dir / neither) x compression_level None / int.  The cases are exhaustive; everything else stays symbolic."""
+    to (zip / dir / neither) x compression_level None / int x the target is / is not a dangling symlink (dang=None: both,
+    forked).  The cases are exhaustive; everything else stays symbolic."""
 
     def save_setup(ctx):
         w = M.world(ctx)
@@ -383,6 +384,16 @@ def save_setup_case(storekind, compkind):
         # ghost constant: the kind of the real target before the call (read back by `concretize`)
         s.k_target = ctx.fresh("target_kind", "int")
         ctx.assume(s.k_target.t == w.fs.K0(save_target(s)))
+        s.dang_target = ctx.fresh("target_is_dangling_link", "bool")
+        ctx.assume(s.dang_target.t == w.fs.DANG0(save_target(s)))
+        # case split (obligation names of the dangling-link case carry a tag, all other names are unaffected)
+        w.fs.mention(save_target(s))
+        if dang is None:
+            s.dangling = bool(ctx.branch(s.dang_target.t))
+        else:
+            ctx.assume(s.dang_target.t == z3.BoolVal(dang))
+            s.dangling = dang
+        s.case = "target-is-a-dangling-symlink" if s.dangling else None
         return s
 
     return save_setup
@@ -416,7 +427,9 @@ def comp_ok(s):
 def blocked(s):
     """Write-once: the target exists and the mode is not 'o'."""
     fs = s.world.fs
-    return AND(fs.K0(save_target(s)) != M.ABSENT, P(s, "mode").t != SV("o"))
+    t = save_target(s)
+    # "exists" = the directory entry exists (a dangling symbolic link is an existing target too)
+    return AND(OR(fs.K0(t) != M.ABSENT, fs.DANG0(t)), P(s, "mode").t != SV("o"))
 
 
 def save_requires(s):
@@ -515,13 +528,21 @@ def write_once(s):
     return implies(blocked(s), fs.untouched(save_target(s)))
 
 
+def replaces_entry(s):
+    """Overwriting means REPLACING the target's directory entry: the file the target name resolved to before the call is
+    never written in place (it may have other names - a hard-linked backup, the destination of a symlink target - and
+    'no save alters any path other than its target')."""
+    fs = s.world.fs
+    return NOT(fs.old_file_written_in_place(save_target(s)))
+
+
 def atomic(s):
     t = save_target(s)
     return implies(loadable_at(s, t), complete_at(s, t))
 
 
 def store_tag(s):
-    return s.storekind
+    return s.storekind + ("][target-is-a-dangling-symlink" if getattr(s, "dangling", False) else "")
 
 
 def save_ensures(s):
@@ -531,6 +552,7 @@ def save_ensures(s):
         ("frame:only-the-target-path-changes" + tag, frame(s)),
         ("write-once:existing-target-untouched" + tag, write_once(s)),
         ("no-loadable-partial-target" + tag, atomic(s)),
+        ("overwrite-replaces-the-directory-entry:old-file-never-written-in-place" + tag, replaces_entry(s)),
         ("success-leaves-a-complete-target-with-skip-metadata" + tag, complete_at(s, t, full=True)),
         ("success-leaves-a-loadable-target" + tag, loadable_at(s, t)),
         state_clause(),
@@ -545,6 +567,7 @@ def save_on_raise(s, E):
         ("frame:only-the-target-path-changes" + tag, frame(s)),
         ("write-once:existing-target-untouched" + tag, write_once(s)),
         ("no-loadable-partial-target" + tag, atomic(s)),
+        ("overwrite-replaces-the-directory-entry:old-file-never-written-in-place" + tag, replaces_entry(s)),
         state_clause(),
     ]
     if E is FileExistsError:
@@ -607,22 +630,23 @@ def havoc_zip(s):
     zip_of(s).havoc(s.ctx)
 
 
-def make_save_contract(storekind, compkind):
+def make_save_contract(storekind, compkind, dang=None):
     c = Contract(
-        f"{SER}:AutoSerialize.save", setup=save_setup_case(storekind, compkind), requires=save_requires, ensures=save_ensures,
+        f"{SER}:AutoSerialize.save", setup=save_setup_case(storekind, compkind, dang), requires=save_requires, ensures=save_ensures,
         on_raise=save_on_raise,
         raises={ValueError: save_value_error,
                 FileExistsError: lambda s: z3.BoolVal(True) if fault_is(s, FileExistsError) else AND(comp_ok(s), blocked(s))},
         loops={0: LoopSpec(inv=save_outer_inv, havoc={"zip": havoc_zip}),
                1: LoopSpec(inv=save_inner_inv, havoc={"zip": havoc_zip})},
-        max_paths=6000, note=f"case: store resolves to {storekind}, compression_level {compkind}",
+        max_paths=6000, note=f"case: store resolves to {storekind}, compression_level {compkind}, target a dangling symlink: {dang}",
     )
     c.raises.update(fault_raises(lambda s: faulted(s)))
     return c
 
 
-SAVE_CASES = [(sk, ck) for sk in ("zip", "dir", "none") for ck in ("int", "none")]
-C_SAVES = [make_save_contract(sk, ck) for sk, ck in SAVE_CASES]
+SAVE_CASES = ([(sk, ck, dg) for sk in ("zip", "dir") for ck in ("int", "none") for dg in (False, True)]
+              + [("none", ck, None) for ck in ("int", "none")])
+C_SAVES = [make_save_contract(sk, ck, dg) for sk, ck, dg in SAVE_CASES]
 
 # ------------------------------------------------------------------------------------------------
 # AutoSerialize._recursive_save
@@ -1105,6 +1129,8 @@ def _digest(path):
     """Content digest of a file / directory tree (None if absent)."""
     if not os.path.lexists(path):
         return None
+    if os.path.islink(path) and not os.path.exists(path):
+        return "dangling-link->" + os.readlink(path)
     h = hashlib.sha256()
     if os.path.isdir(path):
         h.update(b"D")
@@ -1320,6 +1346,19 @@ def rt_save(inp):
                 staged = os.path.join(base, "earlier.zip" if target.endswith(".zip") else "earlier")
                 old_obj.save(staged)  # an earlier successful save, moved to the target path
                 os.rename(staged, target)
+            elif pre in ("symlink", "hardlink"):
+                # the target name shares its FILE with another path: a symlink to it / a second hard link of it
+                if target.endswith(".zip"):
+                    real = os.path.join(work, "linked_real.zip")
+                    old_obj.save(real)
+                else:
+                    real = os.path.join(work, "linked_real.bin")
+                    with open(real, "wb") as f:
+                        f.write(b"the other name of the target's file")
+                (os.symlink if pre == "symlink" else os.link)(real, target)
+            elif pre == "dangling":
+                # the target name is a symbolic link whose destination does not exist (e.g. a 'latest' pointer to a deleted run)
+                os.symlink(os.path.join(work, "dangling_destination" + (".zip" if target.endswith(".zip") else "")), target)
         for x in os.listdir(ptmp):
             shutil.rmtree(os.path.join(ptmp, x), ignore_errors=True)
         existed = os.path.lexists(target)
@@ -1368,7 +1407,7 @@ def rt_save(inp):
         if exc is not None:
             if loaded is not None:
                 got = _attr_names(loaded)
-                ok_old = unchanged and pre == "saved" and got == _attr_names(old_obj)
+                ok_old = unchanged and pre in ("saved", "symlink", "hardlink") and got == _attr_names(old_obj)
                 ok_new = got == want and isinstance(loaded, _Probe)
                 if not (ok_old or ok_new):
                     problems.append(("partial-loadable", f"save raised {type(exc).__name__} but the target loads to an object with attributes "
@@ -1416,6 +1455,8 @@ def rt_save(inp):
         if kinds == ["partial-loadable"]:
             site = fault[0] if fault else "none"
             klass = f"partial-loadable:{eff}:{'zip-assembly' if site == 'zipwrite' else 'serialisation'}"
+        if pre == "dangling":
+            klass = f"dangling-symlink-target:{eff}:" + "+".join(kinds)
     return dict(violated=bool(problems), klass=klass, observed="; ".join(p[1] for p in problems[:3]) or "ok",
                 expected="only the target changes; existing target untouched in write-once mode; after a failed save the target is absent, "
                          "unreadable or a complete object; failures are not swallowed")
@@ -1469,6 +1510,24 @@ def fam_save(tier="quick", seed=0):
                         if site == "remove" and pre in ("absent", "dir") or site == "rmtree" and pre in ("absent", "file", "saved") and eff == "zip":
                             continue
                         yield dict(store=store, mode=mode, suffix=suffix, pre=pre, fault=[site, k], obj=objkind)
+    # the target name shares its file with another path (symlink to an earlier archive / hard-linked backup)
+    for store, suffix in (("zip", ".zip"), ("auto", ".zip"), ("zip", "")) + ((("dir", ""),) if thorough else ()):
+        eff = "dir" if store == "dir" else "zip"
+        cnt = _site_counts(eff, "basic")
+        for pre in ("symlink", "hardlink"):
+            yield dict(store=store, mode="w", suffix=suffix, pre=pre, fault=None)
+            yield dict(store=store, mode="o", suffix=suffix, pre=pre, fault=None)
+            for site in ("serialize", "zipwrite", "zipopen", "skipmeta", "remove", "makedirs"):
+                ks = range(cnt.get(site, 0) if site != "remove" else 1)
+                if not thorough and len(ks) > 3:
+                    ks = sorted({0, 1, len(ks) - 1})
+                for k in ks:
+                    yield dict(store=store, mode="o", suffix=suffix, pre=pre, fault=[site, k])
+    for store, suffix in (("zip", ".zip"), ("dir", "")):
+        for mode in ("w", "o"):
+            yield dict(store=store, mode=mode, suffix=suffix, pre="dangling", fault=None)
+        for site in ("serialize", "zipwrite"):
+            yield dict(store=store, mode="o", suffix=suffix, pre="dangling", fault=[site, 1])
     # refusals and the unserialisable attribute
     for store, suffix in (("dir", ".dat"), ("bogus", ""), ("zip", ".zip"), ("dir", "")):
         for mode, pre in (("w", "absent"), ("w", "file"), ("w", "dir"), ("o", "file"), ("x", "saved")):
@@ -1513,8 +1572,10 @@ def conc_save_case(storekind):
         if store == "auto" and storekind == "zip":
             suffix = ".zip"
         kind = ev("target_kind", 0)
-        pre = {0: "absent", 1: "saved", 2: "saved"}.get(kind, "absent")
-        if mode == "w" and pre != "absent" and any(n.startswith("fault@") and z3.is_true(v) for n, v in ev.table.items()):
+        pre = {0: "absent", 1: "linked", 2: "saved"}.get(kind, "absent")  # linked: rt tries plain file / symlink / hard link
+        if kind == 0 and ev("target_is_dangling_link", False):
+            pre = "dangling"
+        if mode == "w" and pre not in ("absent", "dangling") and any(n.startswith("fault@") and z3.is_true(v) for n, v in ev.table.items()):
             pre = "absent"
         site = None
         for name, val in ev.table.items():
@@ -1539,6 +1600,14 @@ def rt_save_cached(inp):
 def rt_save_any_k(inp):
     """Replay entry: a fault given as [site, None] means 'at some position': try every k of that site.
     (Results are memoised per process: the code under test does not change during a run.)"""
+    if inp.get("pre") == "linked":
+        last = None
+        for pre in ("saved", "symlink", "hardlink"):
+            last = rt_save_any_k(dict(inp, pre=pre))
+            if last["violated"]:
+                last["observed"] = f"[target pre-state: {pre}] " + last["observed"]
+                return last
+        return last
     f = inp.get("fault")
     if not f or f[1] is not None:
         return rt_save_cached(inp)
@@ -1559,6 +1628,8 @@ def _known_defect_input(inp):
     that is itself such an input is still replayed."""
     eff, _ = spec_target("t" + inp.get("suffix", ""), inp.get("store", "auto"))
     f = inp.get("fault")
+    if inp.get("pre") == "dangling":
+        return True
     if eff == "dir":
         return inp.get("obj") in UNSTORABLE_OBJECTS or bool(f and f[0] in ("serialize", "write", "skipmeta"))
     if eff == "zip":
@@ -1572,7 +1643,7 @@ def fam_small():
             yield d
 
 
-for (_sk, _ck), _c in zip(SAVE_CASES, C_SAVES):
+for (_sk, _ck, _dg), _c in zip(SAVE_CASES, C_SAVES):
     _c.concretize, _c.rt, _c.rt_family = conc_save_case(_sk), rt_save_any_k, fam_small
 for _c in (C_RSAVE, C_SVALUE, C_SCONT, C_WNDARRAY, C_WBYTES):
     _c.concretize, _c.rt, _c.rt_family = None, rt_save_any_k, fam_small
